@@ -250,11 +250,21 @@ def check(wrapper: str, text: Any) -> str:
     return "ok"
 
 
+MARKUP_ALPHABET = [60, 62, 38, 93, 91, 34, 39, 45, 33, 59, 47, 97, 10]  # < > & ] [ " ' - ! ; / a NL
+
+
 def make_harness(params: Dict[str, Any]):
     wrapper, n = params["wrapper"], params["len"]
+    alphabet = params.get("alphabet")
 
     def harness(text: str) -> Any:
         assume(len(text) == n)
+        if alphabet is not None:
+            for c in codepoints(text):
+                member: Any = False
+                for a in alphabet:
+                    member = member | (c == a)
+                assume(member)
         return check(wrapper, text)
 
     return harness
@@ -280,6 +290,12 @@ def shards(tier: str) -> List[Dict[str, Any]]:
             out.append({"name": f"csharp:{shape},len={n}", "params": {"wrapper": "csharp:" + shape, "len": n},
                         "budget_s": (80 if deep else 300) if tier == "quick" else 2400, "per_path_timeout": 60,
                         **({"exploratory": True} if deep else {})})
+        if shape != "remarks-text":
+            # one character more over the characters which mean something in XML (']]>', '&#1;', '<!-' ... need three)
+            n = 3 if tier == "quick" else 4
+            out.append({"name": f"csharp:{shape},len={n},markup-alphabet", "params": {"wrapper": "csharp:" + shape, "len": n,
+                                                                                     "alphabet": MARKUP_ALPHABET},
+                        "budget_s": 300 if tier == "quick" else 2400, "per_path_timeout": 60})
     out.sort(key=lambda shard: -shard["budget_s"] if not shard.get("exploratory") else 0)
     return out
 
@@ -341,7 +357,8 @@ def describe(tier: str) -> Dict[str, Any]:
                   f"budgeted exploration for length {max(x['params']['len'] for x in s)}; per wrapper a lexer of the target language's "
                   "comment / triple-quoted-string syntax decides whether the output is exactly ONE comment block / docstring. C#: the real "
                   "_generate_summary_remarks on node trees (text in the summary, inside <c>, inside a remarks paragraph) holding a symbolic "
-                  f"text of length <= {2 if tier == 'quick' else 3} (one more budgeted; the remarks shape only budgeted): every line is a '///' line without a C# line terminator "
+                  f"text of length <= {2 if tier == 'quick' else 3} (one more budgeted; the remarks shape only budgeted), and of length {3 if tier == 'quick' else 4} over the 13 characters "
+                  f"which mean something in XML: every line is a '///' line without a C# line terminator "
                   "and the content is a well-formed XML fragment (known tags balanced, no raw '<', every '&' starts a predefined entity, "
                   "no ']]>', only XML characters)",
         "outside": "whole generated files (the property's 'every generated file parses'): only the wrappers through which description text "
